@@ -430,6 +430,12 @@ func (p *VipnodePool) requestHosts(ctx context.Context, nodeID string, numReques
 	}
 	p.mu.Unlock()
 
+	// The store was asked for extra candidates to make up for skipped peers,
+	// never whitelist (and return) more hosts than were requested.
+	if len(remotes) > numRequestHosts {
+		remotes = remotes[:numRequestHosts]
+	}
+
 	accepted := make([]store.Node, 0, len(remotes))
 	callCtx, cancel := context.WithTimeout(ctx, poolWhitelistTimeout)
 
